@@ -2,6 +2,7 @@
 !  (1) the MODULE PROCEDURES of cgns_f.F90 that call the C API directly with their own string conversion
 !      (TRIM(name)//C_NULL_CHAR on input, C_F_string_chars / C_F_string_ptr on output): nbases, base_read, nzones,
 !      zone_read, ncoords, coord_info, family_write/read, discrete_write/read, narrays, array_info, gopath, geo_write/read,
+!      field_id, 1to1_id (wrappers of cg_ftoc.c that harness/c20_wrap.c does not drive),
 !      and cg_goto_f / cg_gorel_f with SEVERAL label/index pairs (gotov / gorelv).  Reference: harness/c20f_ref.c.
 !  (2) the `dl_*` battery: the same routines called with CHARACTER variables of DECLARED length 1, 8, 31, 32, 33, 40, 80
 !      that sit between guard fields of a SEQUENCE derived type, and CHARACTER*(n) ARRAYS for cgio_children_names_f.
@@ -166,6 +167,27 @@ contains
       call kv('t', int(ty, 8)); call kv('nd', int(nd, 8)); call kv('d0', int(dv(1), 8))
     end if
     call pf('name', o); call nl()
+  end subroutine
+
+  ! cg_field_id_f / cg_1to1_id_f (BIND(C) interface bodies, repaired by 6bd923b): status and "an id was stored"
+  subroutine op_field_id()
+    integer :: B, Z, S, F, ier, nz
+    real(c_double) :: id
+    B = int(ti()); Z = int(ti()); S = int(ti()); F = int(ti()); id = 0
+    call cg_field_id_f(fn, B, Z, S, F, id, ier)
+    nz = 0
+    if (id /= 0) nz = 1
+    call ier_out(ier); if (ier == 0) call kv('nz', int(nz, 8)); call nl()
+  end subroutine
+
+  subroutine op_1to1_id()
+    integer :: B, Z, I, ier, nz
+    real(c_double) :: id
+    B = int(ti()); Z = int(ti()); I = int(ti()); id = 0
+    call cg_1to1_id_f(fn, B, Z, I, id, ier)
+    nz = 0
+    if (id /= 0) nz = 1
+    call ier_out(ier); if (ier == 0) call kv('nz', int(nz, 8)); call nl()
   end subroutine
 
   subroutine op_gopath()
